@@ -713,7 +713,14 @@ class ArgSpec:
         v = acls(n)
         for i, x in enumerate(vals):
             parts = [(x if k == c else vals[(i + 1 + k) % n]) for k in range(len(comps))]
-            v[i] = ecls(*parts)
+            try:
+                v[i] = ecls(*parts)
+            except OverflowError:
+                # V2 constructors range-check (inf refused, open finding V2-constructor-range-check): set the components
+                o = ecls()
+                for nm, pv in zip(comps, parts):
+                    setattr(o, nm, pv)
+                v[i] = o
         return v
 
     def build(self):
@@ -1375,6 +1382,21 @@ class Exerciser:
     def one_config_(self, e, specs, kinds, ds, L, rng, summ, full, dispatched_at):
         o = self.o
         SHIM.clear()
+        # a strided argument is a component property (add_property getter) of a composite array: it must READ BACK the values
+        # laid into that component (a getter with the wrong offset / stride would otherwise feed both the array call and the
+        # scalar reference with the same wrong numbers)
+        for s in specs:
+            if s.kind == "array" and s.mode in ("strided", "strided-masked") and s.src is not None:
+                v_, _u = s.build()
+                got = [pack(s.ti, flat(s.ti, x)) for x in elems(v_)]
+                want = [pack(s.ti, flat(s.ti, x)) for x in s.values]
+                if got != want:
+                    prop = "%s.%s" % (s.src[0].__name__, s.src[2][s.src[3]])
+                    bad_i = next((i for i, (a_, b_) in enumerate(zip(got, want)) if a_ != b_), None)
+                    self.violate("component-property", e, kinds, "the component array %s%s does not hold the values stored in that component"
+                                 % (prop, " (through a mask)" if s.mode == "strided-masked" else ""),
+                                 {"property": prop, "L": L, "first_bad_index": bad_i, "stored": repr(s.values[bad_i]) if bad_i is not None else None,
+                                  "read": repr(elems(v_)[bad_i]) if bad_i is not None else None}, key="component-property:" + prop)
         ref = run_once(e, specs)
         summ["runs"] += 1
         if ref[0] == "raise":
